@@ -2,6 +2,7 @@ import Driver.Common
 import Driver.ObjFmt
 import Parsley.Model.Indirect
 import Parsley.Spec.Framing
+import Parsley.Spec.FramingWide
 namespace Driver.C05
 open Parsley Parsley.Prim Parsley.Obj Parsley.Indirect Parsley.Framing Driver
 
@@ -82,6 +83,24 @@ def meets (e : Expect) (seg : String) : Bool :=
   | .needContext => match words seg with | ["err", k, _, d] => k == "ctx" && d == "0" | _ => false
   | .reject => match words seg with | ["err", k, _, d] => k != "ctx" && d == "0" | _ => false
 
+/-- every number of the item is written inside the i64 range (object number / generation inside
+    0 .. 2^63-1): the domain on which `Framing.expectItem` reads the text correctly -/
+def narrowItem (it : Item) : Bool :=
+  NumLit.headerOK it.num && NumLit.headerOK it.gen &&
+  (if it.isStream then
+     match it.g 5 % 4 with
+     | 0 => NumLit.isInt (it.g 7 % 4 == 1) (it.g 6)
+     | 1 => NumLit.headerOK (it.g 6) && NumLit.headerOK (it.g 7)
+     | _ => true
+   else
+     match it.g 2 with
+     | 0 => NumLit.isInt false (it.g 3)
+     | 1 => NumLit.isInt true (it.g 3)
+     | _ => true)
+
+def showDefs (d : SDefs) : String :=
+  " ".intercalate (d.map fun (k, (v, os, oe)) => s!"{k.1}:{k.2}@{os}-{oe}={objSexp v}")
+
 def judgeScene (hex offs ids desc impl : String) : String :=
   match bytesOfHex hex, splitNats offs, splitIds ids, parseDesc desc with
   | some buf, some offs, some ids, some items =>
@@ -89,7 +108,13 @@ def judgeScene (hex offs ids desc impl : String) : String :=
     if rb != buf then "bad desc-mismatch the description does not render to the buffer"
     else if lays.map (·.off) != offs then "bad desc-mismatch offsets"
     else
-      let (exps, d) := expectScene buf [] items lays
+      -- the oracle for literals of any size (Spec/FramingWide.lean); on scenes written inside the
+      -- i64 range it must say what the original oracle `Framing.expectScene` says
+      let (exps, d) := expectSceneW buf [] items lays
+      let (exps0, d0) := expectScene buf [] items lays
+      if items.all narrowItem && (exps.map expectStr != exps0.map expectStr || showDefs d != showDefs d0) then
+        "bad oracle-disagreement expectSceneW differs from expectScene on a scene inside the i64 range"
+      else
       let segs := impl.splitOn " | "
       if segs.length != exps.length + ids.length then s!"bad shape expected {exps.length + ids.length} segments"
       else
@@ -98,7 +123,8 @@ def judgeScene (hex offs ids desc impl : String) : String :=
         match (exps.zip callSegs).find? fun (e, sg) => !meets e sg with
         | some (e, sg) =>
           let cls := match e, (words sg).head? with
-            | .accept .., some "ok" => "framing"          -- accepted, but not with the framed data
+            | .accept _ _ _ _ _ _ (.stream ..), some "ok" => "framing"   -- accepted, but not with the framed data
+            | .accept .., some "ok" => "value"            -- a plain object accepted with another value / span
             | .accept .., _ => "valid-rejected"
             | .needContext, _ => "context"
             | .reject, some "ok" => "invalid-accepted"
@@ -215,7 +241,8 @@ def sceneCase (d : Nat) (items : List Item) (extraIds : List (Nat × Nat)) : Str
   let (buf, lays) := renderScene items 0
   let offs := ",".intercalate (lays.map fun l => toString l.off)
   let ids := (items.map fun it => (it.num, it.gen)) ++ extraIds
-  let ids := ids.eraseDups
+  -- identifiers that are not object identifiers (a number above 2^63-1) cannot be looked up
+  let ids := ids.eraseDups.filter fun (a, g) => NumLit.headerOK a && NumLit.headerOK g
   let idS := ",".intercalate (ids.map fun (a, g) => s!"{a}:{g}")
   s!"sc {d} {hexOfBytes buf} {offs} {idS} {showDesc items}"
 
@@ -293,6 +320,68 @@ def generations (emit : String → IO Unit) : IO Unit := do
             if ctxKind == 2 then
               emit (sceneCase 10 (tItems ++ [{ st 1 with f := (st 1).f.set 1 rg }]) [(7, rg), (7, og), (1, 0)])
 
+/-! ### literals outside the i64 range
+
+  A number token of magnitude >= 2^63 is not an Integer object (Spec/NumLit.lean): as a declared
+  length - direct or as the value of the referenced object - it is invalid and the stream is
+  rejected.  The literals are chosen so that an implementation that narrows the written value
+  (modulo 2^64, 2^32, 2^128; saturating; sign dropped) would read the payload length or a neighbour
+  of it. -/
+
+/-- literals (magnitude, negative?) tried against a payload of length `l`: every one is outside the
+    i64 range; its low 64 bits, read as an i64, are `l`, `l+1` or `l-1` -/
+def wrapLens (l : Nat) : List (Nat × Bool) :=
+  ([1, 2, 3, 2 ^ 31, 2 ^ 62, 2 ^ 63 - 1, 2 ^ 64, 2 ^ 64 + 1] : List Nat).flatMap fun k =>
+    ([(l : Int), (l : Int) + 1, (l : Int) - 1] : List Int).flatMap fun t =>
+      [false, true].map fun neg => let (ng, mag) := NumLit.wideLit neg k t; (mag, ng)
+
+/-- the boundaries of the integer types (some inside the i64 range: those are lengths like any other,
+    and `2^32 + l`, `2^63-1` or `-2^63` simply do not frame the payload) -/
+def boundaryLens (l : Nat) : List (Nat × Bool) :=
+  [(2 ^ 63 - 1, false), (2 ^ 63 - 1, true), (2 ^ 63, false), (2 ^ 63, true), (2 ^ 63 + 1, true), (2 ^ 63 + l, false),
+   (2 ^ 63 + l, true), (2 ^ 64 - 1, false), (2 ^ 64 - 1, true), (2 ^ 64, false), (2 ^ 64, true),
+   (2 ^ 32 + l, false), (2 ^ 32 + l, true), (2 ^ 32 - l, true), (10 ^ 19, false), (10 ^ 19, true), (10 ^ 30, false), (10 ^ 30, true),
+   (2 ^ 127 - 1, false), (2 ^ 127 - 1, true), (2 ^ 127, false), (2 ^ 127, true), (2 ^ 127 + l, false),
+   (2 ^ 128 + l, false), (2 ^ 128 - l, true), (10 ^ 39, false), (10 ^ 39 + l, true)]
+
+def wide (emit : String → IO Unit) (full : Bool) : IO Unit := do
+  let mut k := 0
+  let ps := if full then payloads else [bs "hello", ([] : Bytes), bs "x\n", bs "endstream endobj xx"]
+  for p in ps do
+    let l := p.length
+    for (n, neg) in wrapLens l ++ boundaryLens l do
+      k := k + 1
+      -- framings that are all valid, so that the verdict depends on the declared length alone
+      let eol1 := k % 2
+      let eol2 := (k / 2) % 4
+      let ws := [k % 9, k % 7, k % 5, k % 4, k % 3, k % 8]
+      let pw := [k % 5, k % 3, 0, k % 2, k % 4]
+      -- direct: plain digits / `+` / leading zeros; `-` for the negative ones
+      let style := if neg then 1 else [0, 2, 3, 0][k % 4]?.getD 0
+      emit (sceneCase 10 [mkStream 1 0 (k % 4) ((k / 4) % 4) (k % 3) 0 n style (k % 3) ws eol1 eol2 0 0 p] [])
+      if k % 3 == 0 then
+        emit (sceneCase 10 [mkStream 1 0 (k % 4) ((k / 4) % 4) (k % 3) 0 n style 0 ws eol1 eol2 0 0 p] [])
+      -- backward reference: the length object (an object of its own: `7 0 obj <literal> endobj`) comes first
+      let tgt := mkPlain 7 0 (if neg then 1 else 0) n pw 0
+      let st := mkStream 1 0 (k % 4) ((k / 4) % 4) (k % 3) 1 7 0 0 ws eol1 eol2 0 0 p
+      emit (sceneCase 10 [tgt, st] [])
+      -- forward reference, then the stream again under another number
+      emit (sceneCase 10 [st, tgt, { st with f := st.f.set 0 2 }] [(7, 0)])
+    -- numbers in the integer-only positions: object number / generation of the header and of the
+    -- reference.  `w` reduces to 7 (resp. 0) modulo 2^64; object (7,0) holds the payload length.
+    for w in ([2 ^ 63, 2 ^ 64, 2 ^ 64 + 7, 2 ^ 127 + 7, 2 ^ 128 + 7] : List Nat) do
+      k := k + 1
+      let ws := [k % 9, k % 7, k % 5, k % 4, k % 3, k % 8]
+      let pw := [k % 5, k % 3, 0, k % 2, k % 4]
+      let tgt := mkPlain 7 0 0 l pw 0
+      -- `/Length <w> 0 R`, `/Length 7 <w'> R` with w' = w - 7 (reduces to generation 0)
+      emit (sceneCase 10 [tgt, mkStream 1 0 (k % 4) ((k / 4) % 4) (k % 3) 1 w 0 0 ws (k % 2) (k % 4) 0 0 p] [])
+      emit (sceneCase 10 [tgt, mkStream 1 0 (k % 4) ((k / 4) % 4) (k % 3) 1 7 (w - 7) 0 ws (k % 2) (k % 4) 0 0 p] [])
+      -- header of the stream object / of the length object
+      emit (sceneCase 10 [mkStream w 0 (k % 4) ((k / 4) % 4) (k % 3) 0 l 0 0 ws (k % 2) (k % 4) 0 0 p] [(7, 0)])
+      emit (sceneCase 10 [mkStream 1 (w - 7) (k % 4) ((k / 4) % 4) (k % 3) 0 l 0 0 ws (k % 2) (k % 4) 0 0 p] [(1, 0)])
+      emit (sceneCase 10 [mkPlain w 0 0 l pw 0, mkStream 1 0 (k % 4) ((k / 4) % 4) (k % 3) 1 7 0 0 ws (k % 2) (k % 4) 0 0 p] [(7, 0)])
+
 def randPayload (r : Rng) : Bytes × Rng :=
   let (k, r) := r.nat 10
   if k < 4 then
@@ -326,9 +415,12 @@ def randItem (r : Rng) (ids : List Nat) : Item × Rng :=
     let (post, r) := r.nat 4
     let (order, r) := r.nat 3
     let (lk, r) := r.nat 10
-    let (rel, r) := r.nat 8
+    let (rel, r) := r.nat 10
     let n := match rel with
-      | 0 => p.length + 1 | 1 => p.length - 1 | 2 => p.length + 50 | 3 => i64Max | _ => p.length
+      | 0 => p.length + 1 | 1 => p.length - 1 | 2 => p.length + 50 | 3 => i64Max
+      | 8 => 2 ^ 64 + p.length                -- outside the i64 range, low 64 bits = the payload length
+      | 9 => 2 ^ 126 - p.length               -- the same when written with a minus sign (style 1)
+      | _ => p.length
     let (lkey, r) := r.nat 8
     let lkey := if lkey < 5 then 0 else lkey - 4
     let (style, r) := r.nat 8
@@ -347,6 +439,7 @@ def randItem (r : Rng) (ids : List Nat) : Item × Rng :=
 
 def gen (seed n : Nat) (tier : String) (emit : String → IO Unit) : IO Unit := do
   generations emit
+  wide emit (tier == "thorough")
   systematic emit (tier == "thorough")
   let mut r := Rng.mk' seed
   for _ in List.range n do
@@ -358,10 +451,12 @@ def gen (seed n : Nat) (tier : String) (emit : String → IO Unit) : IO Unit := 
       (acc.1 ++ [it], r)) ([], r1)
     -- make referenced lengths meaningful: with probability 1/2 set the value of a plain integer
     -- item to the payload length of some stream item of the scene
-    let (fix, r3) := r2.nat 2
+    let (fix, r3) := r2.nat 5
     let plen := (items.find? (·.isStream)).map (·.payload.length) |>.getD 3
-    let items := if fix == 0 then items else items.map fun it =>
-      if !it.isStream && it.g 2 == 0 then { it with f := it.f.set 3 plen } else it
+    -- (one time in five the target is written outside the i64 range, its low 64 bits the payload length)
+    let tval := if fix == 4 then 2 ^ 64 + plen else plen
+    let items := if fix < 2 then items else items.map fun it =>
+      if !it.isStream && it.g 2 == 0 then { it with f := it.f.set 3 tval } else it
     let (d, r4) := r3.nat 6
     emit (sceneCase (if d == 0 then 3 else 10) items [(1, 0), (2, 0), (1, 1), (2, 65535), (9, 9)])
     -- malformed: one byte changed / removed, or a truncation, of the rendered scene
@@ -383,12 +478,14 @@ def containsSub (hay needle : Bytes) : Bool :=
 
 /-- non-trivial: a stream whose payload contains a framing keyword or an end-of-line at its edge,
     or whose declared length is not the payload length, or is declared by reference / invalidly;
+    or any object with a number written outside the i64 range;
     raw cases: the mutated text still contains `stream` -/
 def nontrivial (line : String) : Bool :=
   match words line with
   | ["sc", _, _, _, _, desc] =>
     match parseDesc desc with
     | some items => items.any fun it =>
+        !narrowItem it ||
         it.isStream && (containsSub it.payload Framing.kwEndstream || containsSub it.payload Framing.kwEndobj ||
           it.payload.head? == some 13 || it.payload.head? == some 10 ||
           it.payload.getLast? == some 13 || it.payload.getLast? == some 10 ||
